@@ -164,6 +164,8 @@ func c06(p *model.Prog, r *report.Result) {
 	checkBitLayout(p, r, "C06.R5", pts, pts.Params[2], ptsLayout(), "packPts")
 	c09PlacementAs(p, r, "C06.R6", "")
 	c06r8(p, r)
+	c06r9(p, r, "C06.R9")
+	c12r8As(p, r, "C06.R10")
 	r.Rule("C06.R7", "the frames cached by Rtmp2RtspRemuxer while it waits for the sequence headers, and everything else the remuxers keep, are copies of the message, not references into the caller's buffer (same propagation as C01.R7)")
 	retentionRule(p, r, "C06.R7", []retRoot{{p.Method("pkg/logic", "Group", "OnReadRtmpAvMsg"), 1}}, 40)
 	pcr := p.Func("pkg/mpegts", "packPcr")
@@ -293,6 +295,7 @@ func c07(p *model.Prog, r *report.Result) {
 	c07r56(p, r)
 	c07r78(p, r)
 	c07r910(p, r)
+	c07r11(p, r)
 
 	// ---------------------------------------------------------------- R4
 	r.Rule("C07.R4", "nothing that outlives the ingest callbacks keeps a reference into the RTP / PS / AvPacket buffer handed in (Group.OnAvPacket, Group.OnRtpPacket, CustomizePubSessionContext.FeedAvPacket, PsUnpacker.FeedRtpPacket, BaseInSession.handleRtpPacket): queued packets and cached parameter sets are copies")
